@@ -86,8 +86,8 @@ def do_matrix():
 
 def do_matrix_md():
     d = os.path.join(VERIF, "seeded")
-    print("| seeded change | property | what it changes | needs to manifest | caught by | verdict |")
-    print("|---|---|---|---|---|---|")
+    print("| seeded change | property | what it changes | needs to manifest | caught by | verdict | at import |")
+    print("|---|---|---|---|---|---|---|")
     for name in sorted(os.listdir(d)):
         m = json.load(open(os.path.join(d, name, "meta.json")))
         cr = m.get("check_results", {})
@@ -97,7 +97,7 @@ def do_matrix_md():
                 nfi = any("no-failing-input-found" in l for l in v["violation_lines"])
                 by.append(f"`./check {k} {v['tier']}`" + (" (no-failing-input-found)" if nfi else " (concrete replay)"))
         esc = lambda t: str(t).replace("|", "\\|").replace("\n", " ")
-        print(f"| {name} | {m['property']} | {esc(m.get('summary',''))[:160]} | {esc(m.get('needs_to_manifest',''))[:160]} | {', '.join(by) or '—'} | {'caught' if m.get('caught') else 'MISSED'} |")
+        print(f"| {name} | {m['property']} | {esc(m.get('summary',''))[:160]} | {esc(m.get('needs_to_manifest',''))[:160]} | {', '.join(by) or '—'} | {'caught' if m.get('caught') else 'MISSED'} | {m.get('first_run','')} |")
 
 if __name__ == "__main__":
     if sys.argv[1] == "matrix-md": sys.exit(do_matrix_md())
